@@ -9,6 +9,10 @@
           (name, every parameter with the value it received) and returns a token), the abstract tokens are rendered
           as argv / --config text or file, auto_cli(component, args=...) is run, and the recorded call log and the
           return value are compared with the outcome TLC printed.
+  ROUND 4 the same three steps also cover: components that raise / return falsy values / are coroutine functions,
+          auto_cli(set_defaults=...), environment variables (default_env / env_prefix through the parser kwargs), untyped
+          parameters (fail_untyped=False), class-typed parameters given as class_path specs, keyword-only parameters
+          reached through **kwargs (signature resolver) -- see tools/design.d/C12.md, "Round 4".
   TRACE   (code -> spec) seeded random cases beyond TLC's bounds (up to 6 parameters, deeper dicts, classes with up
           to 3 methods inside lists/dicts, shuffled option/word order) are executed the same way; TLC validates every
           recorded observation -- and every replayed one that did not equal the printed outcome -- against
@@ -41,7 +45,9 @@ PYTYPE = {"int": "int", "str": "str", "bool": "bool", "listint": "List[int]", "e
           "dictint": "Dict[str, int]", "tupis": "Tuple[int, str]", "unionis": "Union[int, str]",
           "opt_int": "Optional[int]", "opt_str": "Optional[str]", "opt_bool": "Optional[bool]",
           "opt_listint": "Optional[List[int]]", "opt_enum": "Optional[Color]",
-          "opt_dictint": "Optional[Dict[str, int]]", "opt_tupis": "Optional[Tuple[int, str]]"}
+          "opt_dictint": "Optional[Dict[str, int]]", "opt_tupis": "Optional[Tuple[int, str]]",
+          "opt_any": None,
+          "obj": "Base", "opt_obj": "Optional[Base]"}     # a class-typed parameter (given as a class_path / init_args spec)      # no type hint at all (auto_cli(fail_untyped=False))
 
 
 def _dict_of(v) -> dict:
@@ -77,24 +83,64 @@ def sig_text(params, method: bool) -> str:
         if p["kind"] == "ko" and not star:
             parts.append("*")
             star = True
-        s = f"{p['n']}: {PYTYPE[p['t']]}"
+        s = f"{p['n']}: {PYTYPE[p['t']]}" if PYTYPE[p["t"]] else p["n"]
         if p["hd"]:
             s += " = " + py_literal(p["d"])
         parts.append(s)
     return ", ".join(parts)
 
 
-def body_text(logname: str, params, ret: bool, indent: str) -> str:
+EXC_CLASS = {"boom": "Boom", "typeerr": "TypeError", "keyerr": "KeyError"}
+RET_LITERAL = {"none": "None", "zero": "0", "empty": "[]", "false": "False"}
+
+
+def body_text(logname: str, params, ret: bool, indent: str, attrs=None) -> str:
+    """the callable records its arguments, then raises (rz) or returns (rk) what the case says"""
+    attrs = attrs or {}
     kw = ", ".join(f"{p['n']!r}: {p['n']}" for p in params)
     out = f"{indent}LOG.append(({logname!r}, {{{kw}}}))\n"
-    if ret:
-        out += f"{indent}return {'ret:' + logname!r}\n"
+    if attrs.get("rz"):
+        out += f"{indent}_e = {EXC_CLASS[attrs['rz']]}({logname!r})\n{indent}RAISED.append(_e)\n{indent}raise _e\n"
+    elif ret:
+        rk = attrs.get("rk", "tok")
+        out += f"{indent}return {RET_LITERAL[rk] if rk in RET_LITERAL else repr('ret:' + logname)}\n"
     return out
 
 
-def module_source(leaves) -> str:
-    src = ["from enum import Enum", "from typing import Dict, List, Optional, Tuple, Union", "", "LOG = []", "", "",
-           "class Color(Enum):", "    A = 1", "    B = 2", "", ""]
+def split_kwargs(params):
+    """round 4: the trailing keyword-only parameters with a default move into a helper that the callable reaches through
+    **kwargs (jsonargparse finds them with its signature resolver, _parameter_resolvers.py); returns (own, moved)"""
+    k = len(params)
+    while k > 0 and params[k - 1]["kind"] == "ko" and params[k - 1]["hd"] and params[k - 1]["n"] != "config":
+        k -= 1      # (a parameter called config stays in the signature: has_parameter(method, "config") of _cli.py looks there)
+    return params[:k], params[k:]
+
+
+def callable_source(defline: str, logname: str, params, ret: bool, indent: str, attrs, method: bool, kwres: bool):
+    """source lines of one function / method; with kwres the trailing keyword-only parameters are declared by a helper
+    function and received through **kwargs"""
+    own, moved = split_kwargs(params) if kwres else (params, [])
+    if not moved:
+        return [], [f"{indent}{defline}({sig_text(params, method)}):", body_text(logname, params, ret, indent + "    ", attrs)]
+    helper = "_kw_" + logname.replace(".", "_")
+    hkw = ", ".join(f"{p['n']!r}: {p['n']}" for p in moved)
+    helper_src = [f"def {helper}({sig_text(moved, False)}):", f"    return {{{hkw}}}", "", ""]
+    out = []
+    sig = sig_text(own, method)
+    out.append(f"{indent}{defline}({sig + ', ' if sig else ''}**kwargs):")
+    body = body_text(logname, own, ret, indent + "    ", attrs)
+    first, rest = body.split("\n", 1)
+    first = first[:-3] + (", " if own else "") + f"**{helper}(**kwargs)}}))"
+    out.append(first + "\n" + rest)
+    return helper_src, out
+
+
+def module_source(leaves, kwres: bool = False) -> str:
+    src = ["from enum import Enum", "from typing import Dict, List, Optional, Tuple, Union", "", "LOG = []", "RAISED = []", "", "",
+           "class Boom(Exception):", "    pass", "", "",
+           "class Color(Enum):", "    A = 1", "    B = 2", "", "",
+           "class Base:", "    def __init__(self, x: int = 1):", "        self.x = x", "", "",
+           "class Sub(Base):", "    def __init__(self, x: int = 1, y: str = 'y'):", "        super().__init__(x)", "        self.y = y", "", ""]
     seen = set()
     for lf in leaves:
         c = lf["c"]
@@ -102,22 +148,32 @@ def module_source(leaves) -> str:
             raise ValueError("duplicate callable name " + c["name"])
         seen.add(c["name"])
         if c["k"] == "fn":
-            src.append(f"def {c['name']}({sig_text(c['params'], False)}):")
-            src.append(body_text(c["name"], c["params"], True, "    "))
+            helper, lines = callable_source(f"{'async ' if c.get('co') else ''}def {c['name']}", c["name"], c["params"], True, "", c, False, kwres)
+            src += helper + lines
         else:
-            src.append(f"class {c['name']}:")
-            src.append(f"    def __init__({sig_text(c['params'], True)}):")
-            src.append(body_text(c["name"] + ".__init__", c["params"], False, "        "))
+            body = [f"class {c['name']}:", f"    def __init__({sig_text(c['params'], True)}):",
+                    body_text(c["name"] + ".__init__", c["params"], False, "        ", {"rz": c.get("rz", "")})]
             for m in c["methods"]:
-                src.append(f"    def {m['name']}({sig_text(m['params'], True)}):")
-                src.append(body_text(c["name"] + "." + m["name"], m["params"], True, "        "))
+                helper, lines = callable_source(f"{'async ' if m.get('co') else ''}def {m['name']}", c["name"] + "." + m["name"], m["params"], True, "    ", m, True, kwres)
+                src += helper
+                body += lines
+            src += body
         src.append("")
     return "\n".join(src)
+
+
+_CUR = {"mod": "?"}      # name of the generated module of the case being rendered (class_path of a spec)
+
+
+def spec_of(v) -> dict:
+    return {"class_path": f"{_CUR['mod']}.{v['c']}", "init_args": {"x": int(v["x"])}}
 
 
 def text_of(v) -> str:
     """the command line text of a value (Text of Cli.tla; lists as JSON)"""
     k = v["k"]
+    if k == "spec":
+        return json.dumps(spec_of(v), separators=(",", ":"))
     if k == "str":
         return v["s"]
     if k == "int":
@@ -137,6 +193,8 @@ def text_of(v) -> str:
 
 def json_of(v):
     k = v["k"]
+    if k == "spec":
+        return spec_of(v)
     if k == "map":
         m = v["m"]
         return {} if m == [] else {n: json_of(x) for n, x in m.items()}
@@ -191,6 +249,58 @@ def render_argv(argv, flavour: int, scratch: str, tag: str):
     return out
 
 
+def py_value(v, mod):
+    """the Python object of an abstract value (for set_defaults)"""
+    k = v["k"]
+    if k == "enum":
+        return mod.Color[v["e"]]
+    if k == "tup":
+        return (int(v["ti"]), v["ts"])
+    return json_of(v)
+
+
+def ret_token(r) -> str:
+    """alpha of the value auto_cli returned (type-exact)"""
+    if isinstance(r, str):
+        return r
+    if r is None:
+        return "None"
+    if type(r) is bool:
+        return f"bool:{r}"
+    if type(r) is int:
+        return f"int:{r}"
+    if type(r) is list:
+        return "list:" + repr(r)[:40]
+    return "?" + repr(r)[:60]
+
+
+ENV_PREFIXES = ["APP", "my-app", False]     # auto_cli(env_prefix=...): dashes become underscores, False = no prefix
+
+
+def env_name(prefix, lvl, name) -> str:
+    """the variable jsonargparse reads for `name` at level lvl (get_env_var: prefix, levels and name joined, "." -> "__", upper)"""
+    parts = [x for x in list(lvl) + [name]]
+    body = "__".join(parts)
+    if prefix:
+        body = prefix.replace("-", "_") + "_" + body
+    return body.upper()
+
+
+def environ_of(case, prefix) -> dict:
+    out = {}
+    for e in case.get("env") or []:
+        if e["k"] == "evar":
+            out[env_name(prefix, e["lvl"], e["n"])] = text_of(e["v"])
+        elif e["k"] == "esel":
+            out[env_name(prefix, e["lvl"], "subcommand")] = e["v"]["s"]
+        elif e["k"] == "ecfg":
+            m = e["m"]
+            out[env_name(prefix, e["lvl"], "config")] = json.dumps({} if m == [] else {n: json_of(x) for n, x in m.items()})
+        else:
+            raise ValueError(f"unknown environment entry {e}")
+    return out
+
+
 def build_component(mod, case, flavour: int):
     leaves = case["leaves"]
     if len(leaves) == 1 and leaves[0]["path"] == []:
@@ -223,6 +333,8 @@ def alpha(v):
         return {"k": "dict", "d": dict(v)}
     if type(v) is tuple and len(v) == 2 and type(v[0]) is int and type(v[1]) is str:
         return {"k": "tup", "ti": v[0], "ts": v[1]}
+    if type(v).__name__ in ("Base", "Sub") and type(getattr(v, "x", None)) is int:
+        return {"k": "obj", "c": type(v).__name__, "x": v.x}
     if type(v).__name__ == "Color" and hasattr(v, "name"):
         return {"k": "enum", "e": v.name}
     return {"k": "other", "s": f"{type(v).__name__}:{v!r}"[:80]}
@@ -231,8 +343,8 @@ def alpha(v):
 _MODS: dict = {}
 
 
-def load_module(leaves, scratch: str):
-    src = module_source(leaves)
+def load_module(leaves, scratch: str, kwres: bool = False):
+    src = module_source(leaves, kwres)
     h = hashlib.sha1(src.encode()).hexdigest()[:16]
     key = (os.getpid(), h)
     if key not in _MODS:
@@ -249,18 +361,42 @@ def load_module(leaves, scratch: str):
 
 def execute(case, flavour: int, scratch: str):
     """run one case on the real auto_cli; returns (obs, python reproduction)"""
-    mod, h = load_module(case["leaves"], scratch)
+    kwres = bool(flavour & 128)      # trailing keyword-only parameters of functions are reached through **kwargs (signature resolver)
+    mod, h = load_module(case["leaves"], scratch, kwres)
+    _CUR["mod"] = mod.__name__
     argv = render_argv(case["argv"], flavour, scratch, f"{os.getpid()}_{h}")
     comp = build_component(mod, case, flavour)
     kwargs = {"as_positional": bool(case["aspos"])}
     if not (flavour & 16):
         kwargs["exit_on_error"] = False
+    if any(p["t"] == "opt_any" for lf in case["leaves"] for ps in [lf["c"]["params"]] + [m["params"] for m in lf["c"]["methods"]] for p in ps):
+        kwargs["fail_untyped"] = False
+    if case.get("sd"):
+        kwargs["set_defaults"] = {".".join(list(e["lvl"]) + [e["n"]]): py_value(e["v"], mod) for e in case["sd"]}
+    environ = {}
+    if case.get("env") or case.get("envon"):
+        prefix = ENV_PREFIXES[(flavour >> 5) % 3]
+        if any(k in os.environ for k in environ_of(case, prefix)):
+            prefix = "VERIFC12"             # (a variable of that name exists in the harness process: use a prefix nobody has)
+        kwargs["env_prefix"] = prefix
+        if case.get("envon"):
+            kwargs["default_env"] = True
+        environ = environ_of(case, prefix)
+        clash = [k for k in environ if k in os.environ]
+        if clash:
+            raise ValueError(f"environment variable(s) {clash} already set in the harness process")
     mod.LOG.clear()
+    mod.RAISED.clear()
     err = ""
     buf = io.StringIO()
     try:
-        with redirect_stderr(buf), redirect_stdout(buf):
-            r = auto_cli(comp, args=list(argv), **kwargs)
+        os.environ.update(environ)
+        try:
+            with redirect_stderr(buf), redirect_stdout(buf):
+                r = auto_cli(comp, args=list(argv), **kwargs)
+        finally:
+            for k in environ:
+                os.environ.pop(k, None)
         out = "ok"
     except ArgumentError as ex:
         out, r, err = "reject", None, str(ex)[:300]
@@ -268,10 +404,19 @@ def execute(case, flavour: int, scratch: str):
         out, r = ("reject" if ex.code == 2 else f"exit:{ex.code}"), None
         err = buf.getvalue()[-300:]
     except Exception as ex:  # anything else escaping auto_cli is not an outcome the property allows
-        out, r, err = "crash", None, type(ex).__name__ + ": " + str(ex)[:300]
+        if mod.RAISED and ex is mod.RAISED[-1] and len(mod.RAISED) == 1:
+            # the component's own exception, the very object it raised: "propagates unchanged"
+            kind = {"Boom": "boom", "TypeError": "typeerr", "KeyError": "keyerr"}.get(type(ex).__name__, "?")
+            out, r, err = "raise", f"exc:{kind}:{ex.args[0] if ex.args else '?'}", ""
+        else:
+            out, r, err = "crash", None, type(ex).__name__ + ": " + str(ex)[:300]
+            if mod.RAISED:
+                err += "  [the component raised " + repr(mod.RAISED) + "]"
     calls = [{"name": n, "kw": {k: alpha(v) for k, v in kw.items()}} for n, kw in mod.LOG]
     if out == "ok":
-        obs = {"out": "ok", "calls": calls, "ret": r if isinstance(r, str) else "?" + repr(r)[:60]}
+        obs = {"out": "ok", "calls": calls, "ret": ret_token(r)}
+    elif out == "raise":
+        obs = {"out": "raise", "calls": calls, "ret": r}
     elif out == "reject" and not calls:
         obs = {"out": "reject", "calls": [], "ret": ""}
     elif out == "crash":
@@ -280,8 +425,9 @@ def execute(case, flavour: int, scratch: str):
     else:
         obs = {"out": out if not calls else out + "-after-call", "calls": calls, "ret": ""}
     comp_txt = ("list" if isinstance(comp, list) else "dict" if isinstance(comp, dict) else "single")
-    py = (f"# module:\n{module_source(case['leaves'])}\n# auto_cli(<{comp_txt} of the callables above, paths "
-          f"{[lf['path'] for lf in case['leaves']]}>, args={argv!r}, {', '.join(f'{k}={v!r}' for k, v in kwargs.items())})")
+    py = (f"# module:\n{module_source(case['leaves'], kwres)}\n# auto_cli(<{comp_txt} of the callables above, paths "
+          f"{[lf['path'] for lf in case['leaves']]}>, args={argv!r}, {', '.join(f'{k}={v!r}' for k, v in kwargs.items())})"
+          + (f"   with os.environ + {environ!r}" if environ else ""))
     return obs, py, err
 
 
@@ -306,6 +452,9 @@ def flavour_of(idx: int, salt: int) -> int:
         fl |= 8                     # flat components as a dict instead of a list
     if (r >> 13) % 4 == 0:
         fl |= 16                    # default exit_on_error (SystemExit 2)
+    fl |= ((r >> 17) % 3) << 5      # env_prefix flavour (only used by cases with an environment)
+    if (r >> 21) % 4 == 0:
+        fl |= 128                   # functions receive their trailing keyword-only parameters through **kwargs
     return fl
 
 
@@ -340,13 +489,24 @@ def run_isolated(case, flavour, scratch):
 
 
 # ---------------------------------------------------------------- random cases beyond TLC's bounds
-TYPES = ["int", "str", "bool", "opt_int", "listint", "enum", "int", "str", "opt_listint", "opt_dictint", "opt_tupis", "dictint", "tupis", "unionis"]
+TYPES = ["int", "str", "bool", "opt_int", "listint", "enum", "int", "str", "opt_listint", "opt_dictint", "opt_tupis", "dictint", "tupis", "unionis",
+         "int", "str", "bool", "opt_int", "listint", "enum", "int", "str", "opt_listint", "opt_dictint", "opt_tupis", "dictint", "tupis", "unionis", "opt_any", "opt_any"]
+
+
+_RND = {"obj_ok": False}     # class-typed parameters only in cases without positional words (a spec never lands on another parameter)
 
 
 def rnd_value(rnd, t, src, which=None):
     w = which if which is not None else rnd.randint(1, 3)
+    if t in ("obj", "opt_obj"):
+        if t == "opt_obj" and rnd.random() < 0.2:
+            return {"k": "null"}
+        return {"k": "spec", "c": rnd.choice(["Base", "Sub"]), "x": rnd.randint(0, 9)}
     if t.startswith("opt_") and t != "opt_int":
         return {"k": "null"} if rnd.random() < 0.25 else rnd_value(rnd, t[4:], src, which)
+    if t == "any":       # an untyped parameter takes anything
+        return rnd.choice([{"k": "int", "i": rnd.randint(0, 50)}, {"k": "str", "s": rnd.choice(["ab", "cd", "Zed"])}, {"k": "bool", "b": rnd.random() < 0.5},
+                           {"k": "list", "l": [rnd.randint(0, 9) for _ in range(rnd.randint(0, 2))]}, {"k": "dict", "d": {rnd.choice(["k", "q"]): rnd.randint(0, 9)}}])
     if t == "dictint":
         return {"k": "dict", "d": ({} if rnd.random() < 0.3 else {rnd.choice(["k", "q"]): rnd.randint(0, 9)})}
     if t == "tupis":
@@ -376,7 +536,7 @@ def rnd_value(rnd, t, src, which=None):
 def rnd_wrong(rnd, t, src):
     if t.startswith("opt_") and t != "opt_int":
         t = t[4:]
-    if t in ("dictint", "tupis"):
+    if t in ("dictint", "tupis", "any", "obj"):
         return {"k": "int", "i": 3}
     if t == "unionis":
         return {"k": "bool", "b": True}
@@ -386,6 +546,8 @@ def rnd_wrong(rnd, t, src):
 
 
 def rnd_default(rnd, t):
+    if t in ("obj", "opt_obj"):
+        return {"k": "null"}
     if t == "int":
         return rnd.choice([{"k": "int", "i": 7}, {"k": "int", "i": 0}, {"k": "null"}])
     if t == "str":
@@ -398,6 +560,8 @@ def rnd_default(rnd, t):
         return rnd.choice([{"k": "list", "l": [1, 2]}, {"k": "list", "l": []}, {"k": "null"}])
     if t == "enum":
         return rnd.choice([{"k": "enum", "e": "B"}, {"k": "enum", "e": "A"}])
+    if t == "any":
+        return rnd.choice([{"k": "int", "i": 2}, {"k": "str", "s": "x"}, {"k": "bool", "b": True}, {"k": "list", "l": [1]}])
     if t.startswith("opt_"):
         return rnd.choice([{"k": "null"}, rnd_default(rnd, t[4:])])
     if t == "unionis":
@@ -419,7 +583,7 @@ def rnd_sig(rnd, maxn=6, allow_empty=True):
     ko = False
     seen_default = False
     for i, nm in enumerate(names):
-        t = rnd.choice(TYPES)
+        t = rnd.choice(TYPES + ["obj", "opt_obj", "obj"]) if _RND["obj_ok"] else rnd.choice(TYPES)
         hd = rnd.random() < 0.5 or nm == "_h" and rnd.random() < 0.8
         if not ko and (seen_default and not hd or rnd.random() < 0.25):
             ko = True
@@ -511,15 +675,25 @@ def full_map(rnd, leaves, lvl, sel, expl):
 
 def rnd_case(rnd, idx):
     aspos = rnd.random() < 0.85
+    _RND["obj_ok"] = not aspos
     kind = rnd.choices(["fn", "cls", "list", "dict"], [4, 3, 2, 3])[0]
     fnames = ["f", "g", "h", "run", "fit", "conf"]   # (a component called config is outside the universe: see MC_Cli.tla, shape 8)
     cnames = ["K", "Tool"]
+    gnames = ["grp", "top", "mid"]
+    mpool = ["m1", "m2", "go", "apply"]
+    if rnd.random() < 0.3:
+        # names that are also attributes of jsonargparse's Namespace: functions, groups and methods called like that
+        ns = ["get", "update", "pop", "clone", "items", "keys", "values"]
+        rnd.shuffle(ns)
+        fnames = ns[:4] + rnd.sample(fnames, 2)
+        gnames = [ns[4], ns[5], rnd.choice(["mid", ns[6]])]
+        mpool = rnd.sample(ns, 3) + ["m1"]
 
     def mk_fn(name, maxn=6):
         return {"k": "fn", "name": name, "params": rnd_sig(rnd, maxn), "methods": []}
 
     def mk_cls(name):
-        mnames = sorted(rnd.sample(["m1", "m2", "go", "apply"], rnd.randint(1, 3)))
+        mnames = sorted(rnd.sample(mpool, rnd.randint(1, 3)))
         init = [p for p in rnd_sig(rnd, 4) if p["n"] not in mnames]
         meths = [{"name": m, "params": rnd_sig(rnd, 4)} for m in mnames]
         if rnd.random() < 0.06:       # a METHOD parameter called config (recorded deviation)
@@ -541,11 +715,12 @@ def rnd_case(rnd, idx):
     else:
         pool = rnd.sample(fnames, 4) + rnd.sample(cnames, 1)
         rnd.shuffle(pool)
-        paths = [["grp", pool[0]], ["grp", pool[1]], [pool[2]]]
+        g_grp, g_top, g_mid = gnames
+        paths = [[g_grp, pool[0]], [g_grp, pool[1]], [pool[2]]]
         if rnd.random() < 0.5:
-            paths.append(["top", "mid", pool[3]])
+            paths.append([g_top, g_mid, pool[3]])
         if rnd.random() < 0.4:
-            paths.append(["top", pool[4]] if any(p[0] == "top" for p in paths) else [pool[4]])
+            paths.append([g_top, pool[4]] if any(p[0] == g_top for p in paths) else [pool[4]])
         for p in paths:
             leaves.append({"path": p, "c": mk_cls(p[-1]) if p[-1] in cnames else mk_fn(p[-1], 4)})
     # choose the leaf to run and build the command line
@@ -604,7 +779,89 @@ def rnd_case(rnd, idx):
         m = full_map(rnd, leaves, [], sel, rnd.random() < 0.6)
         if m:
             toks = [{"k": "cfg", "m": m}]
-    return {"id": ["R", idx], "aspos": aspos, "leaves": leaves, "argv": toks}
+    case = {"id": ["R", idx], "aspos": aspos, "leaves": leaves, "argv": toks}
+    rnd_round4(rnd, case)
+    return case
+
+
+def rnd_sd_value(rnd, t):
+    """a Python-level value of the declared type for set_defaults (None only for Optional types; no str of digits for the Union)"""
+    if t == "unionis":
+        return rnd.choice([{"k": "str", "s": "cd"}, {"k": "int", "i": rnd.randint(0, 50)}])
+    v = rnd_value(rnd, t, "cfg")
+    base = t[4:] if t.startswith("opt_") else t
+    if base == "enum" and v["k"] == "str":
+        return {"k": "enum", "e": v["s"]}
+    return v
+
+
+def rnd_round4(rnd, case):
+    """round 4: set_defaults on random parameters of random levels (selected or not), callables that raise / return falsy
+    values / are coroutine functions"""
+    callables = []          # (level, record, params, is_init)
+    for lf in case["leaves"]:
+        c = lf["c"]
+        callables.append((lf["path"], c, c["params"], c["k"] == "cls"))
+        for m in c["methods"]:
+            callables.append((lf["path"] + [m["name"]], m, m["params"], False))
+    if rnd.random() < 0.3:
+        sd = []
+        for lvl, _, ps, _ in callables:
+            for p in ps:
+                if p["n"] == "config" or (p["n"].startswith("_") and not is_required(p)) or p["t"] in ("obj", "opt_obj"):
+                    continue
+                if rnd.random() < 0.45:
+                    sd.append({"lvl": list(lvl), "n": p["n"], "v": rnd_sd_value(rnd, p["t"])})
+        if sd:
+            case["sd"] = sd
+    if rnd.random() < 0.3:
+        # the environment: variables for random parameters of random levels (a few ill-typed, one that names nothing),
+        # SUBCOMMAND variables for random levels, the config variable with settings of the root level's own parameters
+        env = []
+        for lvl, _, ps, _ in callables:
+            for p in ps:
+                if p["n"] != "config" and rnd.random() < 0.4:
+                    v = rnd_wrong(rnd, p["t"], "argv") if rnd.random() < 0.04 else rnd_value(rnd, p["t"], "argv")
+                    env.append({"k": "evar", "lvl": list(lvl), "n": p["n"], "v": v})
+        if rnd.random() < 0.2:
+            env.append({"k": "evar", "lvl": list(rnd.choice(callables)[0]), "n": "zz9", "v": {"k": "int", "i": 1}})
+        subs: dict = {}
+        for lf in case["leaves"]:
+            for i in range(len(lf["path"])):
+                subs.setdefault(tuple(lf["path"][:i]), [])
+                if lf["path"][i] not in subs[tuple(lf["path"][:i])]:
+                    subs[tuple(lf["path"][:i])].append(lf["path"][i])
+            if lf["c"]["k"] == "cls":
+                subs[tuple(lf["path"])] = [m["name"] for m in lf["c"]["methods"]]
+        for lvl, names in subs.items():
+            if rnd.random() < 0.5:
+                env.append({"k": "esel", "lvl": list(lvl), "v": {"k": "str", "s": rnd.choice(names)}})
+        root = next((lf["c"] for lf in case["leaves"] if lf["path"] == []), None)
+        if root is not None and rnd.random() < 0.25 and all(p["n"] != "config" for p in root["params"]):
+            m = {p["n"]: rnd_value(rnd, p["t"], "cfg") for p in root["params"]
+                 if not (p["n"].startswith("_") and not is_required(p)) and rnd.random() < 0.6}
+            if m:
+                env.append({"k": "ecfg", "lvl": [], "m": m})
+        elif (rnd.random() < 0.2 and not any(p["n"] == "config" for _, _, ps, _ in callables for p in ps)
+              and all(len(lf["path"]) + (1 if lf["c"]["k"] == "cls" else 0) <= 1 for lf in case["leaves"])):
+            # (one level of sub-commands only: what _load_env_vars does with sections BELOW a selected sub-command is not transcribed)
+            m = full_map(rnd, case["leaves"], [], [], False)       # sections for every sub-command (with a SUBCOMMAND variable: the recorded deviation)
+            if m:
+                env.append({"k": "ecfg", "lvl": [], "m": m})
+        if env:
+            rnd.shuffle(env)
+            case["envon"] = rnd.random() < 0.85
+            case["env"] = env
+    if rnd.random() < 0.2:
+        rnd.choice(callables)[1]["rz"] = rnd.choice(["boom", "typeerr", "keyerr"])
+    if rnd.random() < 0.3:
+        for _, rec, _, is_init in callables:
+            if not is_init and rnd.random() < 0.5:
+                rec["rk"] = rnd.choice(["none", "zero", "empty", "false"])
+    if rnd.random() < 0.15:
+        for _, rec, _, is_init in callables:
+            if not is_init and rnd.random() < 0.5:
+                rec["co"] = True
 
 
 # ---------------------------------------------------------------- classification helpers
@@ -621,8 +878,8 @@ def nontrivial_key(case, obs):
         return None
     sig = json.dumps([[lf["path"], lf["c"]["k"], [[p["t"], p["hd"], p["kind"]] for p in lf["c"]["params"]],
                        [[[p["t"], p["hd"]] for p in m["params"]] for m in lf["c"]["methods"]]] for lf in case["leaves"]])
-    toks = json.dumps(case["argv"], sort_keys=True)
-    if not case["argv"]:
+    toks = json.dumps([case["argv"], case.get("sd"), case.get("env")], sort_keys=True)
+    if not case["argv"] and not case.get("env"):
         return None
     return hashlib.sha1((sig + toks).encode()).hexdigest()
 
@@ -640,6 +897,10 @@ def main(argv):
         "error wording and the exception class beyond ArgumentError / SystemExit(2) are not compared",
         "argparse's acceptance of a unique abbreviation (--co for --config) is not modelled: options are only written with their full name and only for parameters that are options at that level",
         "the option strings of a parser are modelled as in this environment (shtab installed: --print_shtab exists, so --p is a prefix of two options)",
+        "round 4: a component that raises is observed as outcome 'raise' only when the exception escaping auto_cli IS the object the component raised; exception classes Boom(Exception), TypeError, KeyError; return values: a token, None, 0, [], False; coroutine functions",
+        "round 4: set_defaults is given as {dotted key: well-typed Python value} (None only for Optional types, no str of digits for Union[int, str]); nested dicts instead of dotted keys, ill-typed values and private parameters are outside the universe",
+        "round 4: environment = variables of parameters at every level, SUBCOMMAND variables, the root CONFIG variable (own settings, or sections for ONE level of sub-commands in random cases); env_prefix 'APP' / 'my-app' / False chosen per case (a prefix nobody has when a variable of that name already exists in the harness process); which of a config-variable SECTION and a sub-command's own variable wins is not pinned (both accepted), an ill-typed variable of a sub-command that does not run may or may not be reported",
+        "round 4: untyped parameters (fail_untyped=False) take int / word / bool / list / dict / null values; class-typed parameters use one family (Base, Sub(Base)) and full class_path + init_args.x specs, and appear in random cases only when as_positional=False; the **kwargs flavour moves only keyword-only parameters with a default of functions and methods (never one called config)",
     ]
     scratch = str(common.scratch("c12"))
     try:
@@ -691,7 +952,7 @@ def main(argv):
             else:
                 to_validate.append((case, obs, py, err, "replay", flav[i]))
             if i in (0, len(cases) // 3, 2 * len(cases) // 3):
-                rep.sample({"origin": "replay of a TLC-emitted case", "case": {k: case[k] for k in ("id", "aspos", "leaves", "argv")},
+                rep.sample({"origin": "replay of a TLC-emitted case", "case": {k: case[k] for k in ("id", "aspos", "leaves", "argv", "sd", "envon", "env") if k in case},
                             "expected": case["exp"], "observed": obs, "python": py})
         rep.extra["replayed"] = len(cases)
         rep.extra["replay_equal_to_printed_outcome"] = n_equal
@@ -715,7 +976,7 @@ def main(argv):
             part = to_validate[c0:c0 + chunk]
             f = os.path.join(scratch, f"trace_{c0}.json")
             with open(f, "w") as fh:
-                json.dump([{"cs": {"aspos": c["aspos"], "leaves": c["leaves"], "argv": c["argv"]}, "obs": o} for c, o, *_ in part], fh)
+                json.dump([{"cs": {k: c[k] for k in ("aspos", "leaves", "argv", "sd", "envon", "env") if k in c}, "obs": o} for c, o, *_ in part], fh)
             tr = tlc.run("Trace_Cli", "Trace_Cli", workers=WORKERS, env={"TRACE_FILE": f}, timeout=3000, heap=HEAP)
             rep.add_tlc(f"Trace_Cli[{c0}]", tr)
             done = {p[1] for p in tr.printed if isinstance(p, list) and p and p[0] == "D"}
@@ -743,6 +1004,9 @@ def main(argv):
                 continue
             info = {"case": case, "observed": obs, "error_text": err, "failed_clauses": sorted(clauses), "origin": origin, "python": py,
                     "flavour": fl}
+            if "ref-dev-envcfg-as-alg" in clauses:
+                rep.violation("env-config-section:lost-with-subcommand-variable", "settings of a sub-command given through the config environment variable are lost when the SUBCOMMAND environment variable selects that sub-command", info)
+                continue
             if "ref-dev-subconfig-as-alg" in clauses:
                 rep.violation("sub-named-config:rejected", "a component / method called config cannot be selected: its name is taken for the --config option's value and the parse is rejected", info)
                 continue
